@@ -43,7 +43,13 @@ def main(argv):
         print('HARNESS-FAILURE: no monitor for %s (%s)' % (prop, ex))
         return 2
     chk = mod.C(tier, seed)
-    return chk.execute()
+    try:
+        return chk.execute()
+    except Exception:           # a failure of the monitor itself is never a verdict on the library
+        import traceback
+        traceback.print_exc()
+        print('HARNESS-FAILURE: %s monitor raised an exception (inconclusive)' % prop)
+        return 2
 
 
 if __name__ == '__main__':
